@@ -5,3 +5,4 @@ import Flodym.Array
 import Flodym.SubArray
 import Flodym.Stocks
 import Flodym.History
+import Flodym.Store
